@@ -158,11 +158,41 @@ func (s *scenario) retryCase(authn bool) {
 	}()
 	var out outcome
 	moved := false
+	flippedEp := ""
 	select {
 	case <-hit:
-		s.setOwner(x, b)
+		flipped := false
+		if s.retryFlip {
+			// instead of moving the host: the server that is answering the failing attempt stops being a ready endpoint of
+			// the cluster (health flip during the review), another server of the cluster stays ready
+			if rv := s.log.since(m); len(rv) > 0 {
+				s.p.mu.Lock()
+				var target *sendpoint
+				others := 0
+				for _, e := range s.p.eps {
+					if e.owner == a && e.ready {
+						if e.name == rv[len(rv)-1].Endpoint {
+							target = e
+						} else {
+							others++
+						}
+					}
+				}
+				if target != nil && others > 0 {
+					target.ready = false
+					flipped = true
+					flippedEp = target.name
+				}
+				s.p.mu.Unlock()
+			}
+		}
+		if flipped {
+			s.ops = append(s.ops, op{Kind: "endpoint", Host: flippedEp, Attr: "ready=false while it answers the failing attempt"})
+		} else {
+			s.setOwner(x, b)
+			s.ops = append(s.ops, op{Kind: "move", Host: x, Cluster: b.name, Owner: a.name})
+		}
 		moved = true
-		s.ops = append(s.ops, op{Kind: "move", Host: x, Cluster: b.name, Owner: a.name})
 		close(proceed)
 		select {
 		case out = <-done:
@@ -185,9 +215,20 @@ func (s *scenario) retryCase(authn bool) {
 		return
 	}
 	reviews := s.log.since(m)
-	if len(reviews) >= 2 && authn {
+	ctxSig := "retry-after-host-moved"
+	if flippedEp != "" {
+		ctxSig = "retry-after-endpoint-unready"
+	}
+	// a case counts when its first attempt failed with the retriable error and the change was made before the error returned
+	// (whether a second review is sent at all is the implementation's choice: giving up is a refusal)
+	if len(reviews) >= 2 {
+		r.Count("retry_cases_with_a_second_review", 1)
+	}
+	if len(reviews) >= 1 && flippedEp != "" {
+		r.Count("retry_cases_endpoint_became_unready_"+kindName, 1)
+	} else if len(reviews) >= 1 && authn {
 		r.Count("retry_cases_authn", 1)
-	} else if len(reviews) >= 2 {
+	} else if len(reviews) >= 1 {
 		r.Count("retry_cases", 1)
 		if strings.HasPrefix(attrSpecs[ai].name, "impersonate") {
 			r.Count("retry_cases_impersonation", 1)
@@ -198,7 +239,7 @@ func (s *scenario) retryCase(authn bool) {
 	wit := s.witness(map[string]interface{}{"request_resolved_to": a.name, "host_moved_to": b.name})
 	for _, rv := range reviews {
 		if rv.Cluster == a.name && !rv.EpReady {
-			r.Violation("C12/"+kindName+"/review-sent-to-endpoint-that-is-not-ready/retry-after-host-moved", fmt.Sprintf("review received by server %s, not a ready endpoint of %q", rv.Endpoint, a.name), wit)
+			r.Violation("C12/"+kindName+"/review-sent-to-endpoint-that-is-not-ready/"+ctxSig, fmt.Sprintf("request to host %q (cluster %q): its first review failed with a retriable error at server %s, which stopped being a ready endpoint meanwhile; the retried review was again sent to server %s although another server of the cluster is ready", x, a.name, flippedEp, rv.Endpoint), wit)
 			break
 		}
 		if rv.Cluster != a.name {
